@@ -41,7 +41,7 @@ func init() {
 				}
 				return unit.Name + " " + hexShort(cur)
 			})
-			var hist byteHist
+			hist := &byteHistory
 			unit.Each(func(b []byte) bool {
 				cur = b
 				if w.Journaling() {
@@ -164,7 +164,7 @@ func c02Check(w *mc.W, st *c02State, b []byte, unit string) {
 		}
 	}
 	p := st.ps.Parse(b)
-	histOK = p.MetaOK
+	setHist(p.MetaOK, p.HasVB, p.HasPal, p.Reason)
 	calls := st.rd.Calls
 	if !p.MetaOK && !p.MIDOrder && len(calls) > 0 {
 		fail("delivered-before-metadata-valid", fmt.Sprintf("metadata invalid (%s) but %d calls delivered, first %s", p.Reason, len(calls), calls[0]))
